@@ -102,10 +102,10 @@ Dec(G, b, fmt) ==
                     ELSE IF Enc(G, P, fmt) # b THEN <<"err">>      \* e.g. odd prefix on a y whose parity cannot be odd
                     ELSE <<"ok", P>>
 \* ---------------------------------------------------------------- conversions (C13)
-None == <<"none">>
+None == <<-1>>                                   \* not a BigNat (digits are 0..255); comparable with BigNats
 FromSliceSpec(p, b) == IF Len(b) \in 1..64 THEN BMod(FromBE(b), p) ELSE None
 FromHashSpec(b) == IF Len(b) <= 64 THEN BAdd(BMod(FromBE(b), Rm1), <<1>>) ELSE None
-\* decimal parser over code points; <<"none">> as soon as a character is not an ASCII digit
+\* decimal parser over code points; None as soon as a character is not an ASCII digit
 FromStrSpec(p, cps) == IF \E i \in 1..Len(cps) : cps[i] < 48 \/ cps[i] > 57 THEN None
                        ELSE FoldLeft(LAMBDA acc, c : BMod(BAdd(BMul(acc, N(10)), N(c - 48)), p), <<>>, cps)
 Pow2N(i) == [j \in 1..((i \div 8) + 1) |-> IF j = (i \div 8) + 1 THEN 2 ^ (i % 8) ELSE 0]     \* 2^i as a BigNat
